@@ -12,6 +12,7 @@ var All = map[string]func() *corr.Engine{
 	"C08": C08,
 	"C01": C01,
 	"C07": C07,
+	"C09": C09,
 	"C05": C05,
 	"C06": C06,
 }
